@@ -231,4 +231,43 @@ example : FHistOK [3, 2] ([], 0) (([.ins [(0, 1)], .ins [], .erp 0 [], .ins [(0,
   simp [FHistOK, FOpOK, fspecStep, specInsert, ValidPF, KeysAsc, FOp.keyEmpty]
 
 
+/-! ### `reconstruct`'s Factors and the library's `merge` -/
+
+
+theorem mergePFs_keys (a b : PF) (lo : Nat) (ha : KeysAsc lo a) (hb : KeysAsc lo b) :
+    ∀ kv ∈ mergePFs a b, (∃ v, (kv.1, v) ∈ a) ∨ (∃ v, (kv.1, v) ∈ b) := by
+  intro kv hkv
+  have hasc := mergePFs_asc a b lo ha hb
+  have hl : lookup (mergePFs a b) kv.1 = some kv.2 := lookup_of_mem hasc hkv
+  rw [mergePFs_lookup a b lo ha hb] at hl
+  cases hb' : lookup b kv.1 with
+  | some v => exact Or.inr ⟨v, lookup_mem hb'⟩
+  | none =>
+    rw [hb'] at hl
+    exact Or.inl ⟨kv.2, lookup_mem hl⟩
+
+/-- **what `reconstruct` returns is what `merge` denotes**: overwriting an assignment by `merge(a, b)` is overwriting it by `a` and then by `b`
+    (so the Factors returned by `FasterTrie::reconstruct` — `reconstruct_factors`: the query overwritten by the returned entries in order —
+    is the assignment of the library's `merge` of the query and those entries) -/
+theorem assign_merge (f : List Nat) (a b : PF) (lo : Nat) (ha : KeysAsc lo a) (hb : KeysAsc lo b)
+    (hka : ∀ kv ∈ a, kv.1 < f.length) (hkb : ∀ kv ∈ b, kv.1 < f.length) :
+    assign f (mergePFs a b) = assign (assign f a) b := by
+  have hkm : ∀ kv ∈ mergePFs a b, kv.1 < f.length := by
+    intro kv hkv
+    rcases mergePFs_keys a b lo ha hb kv hkv with ⟨v, hv⟩ | ⟨v, hv⟩
+    · exact hka (kv.1, v) hv
+    · exact hkb (kv.1, v) hv
+  apply List.ext_getElem
+  · rw [assign_length, assign_length, assign_length]
+  · intro k h1 h2
+    have e1 := assign_get f (mergePFs a b) lo (mergePFs_asc a b lo ha hb) hkm k
+    have e2 := assign_get (assign f a) b lo hb (by intro kv hkv; rw [assign_length]; exact hkb kv hkv) k
+    have e3 := assign_get f a lo ha hka k
+    rw [List.getD_eq_getElem?_getD, List.getElem?_eq_getElem h1] at e1
+    rw [List.getD_eq_getElem?_getD, List.getElem?_eq_getElem h2] at e2
+    simp only [Option.getD_some] at e1 e2
+    rw [e1, e2, e3, mergePFs_lookup a b lo ha hb]
+    cases lookup b k <;> rfl
+
+
 end AITB.Trie
